@@ -26,6 +26,7 @@ func propNum(p string) uint64 {
 }
 
 func genFor(prop string, seed uint64, tier string) *Scenario {
+	replHot = replHot[:0]
 	switch prop {
 	case "C11":
 		return genC11(seed, tier)
